@@ -618,7 +618,11 @@ func (m *Machine) callWith(fn *ssa.Function, args []Val, bind []Val) Val {
 			}
 			if m.hangLimit > 0 && m.steps > m.hangLimit {
 				m.hangLimit = 0
-				m.tpanic("hang", "instruction budget set by the harness exceeded (non-termination)", in.Pos())
+				stack := ""
+				for k := len(m.curFn) - 1; k >= 0 && k >= len(m.curFn)-7; k-- {
+					stack += " <- " + m.curFn[k].Name()
+				}
+				m.tpanic("hang", "instruction budget set by the harness exceeded (non-termination); stack:"+stack, in.Pos())
 			}
 			switch i := in.(type) {
 			case *ssa.Phi:
